@@ -9,9 +9,16 @@ Streams
   F1  Server.parse_command on single lines (real StreamReader), model fn 0
   F2  BaseClient.command(cmd, censor_after=k), model fn 1
   S1  whole logins with the real Client against the real Server on simnet (accepted, rejected,
-      unknown user, anonymous, user without password), model fn 4 (both loggers)
+      unknown user, anonymous, user without password), model fn 4 (both loggers); + a user manager whose
+      authenticate() raises (the error path of PASS: dispatcher traceback), oracle only
   S2  raw control-channel scripts (simnet.Raw) with odd verb spellings: PASS before USER, wrong
-      then right then repeated PASS, PASS after an unknown USER, bare PASS; model fn 2
+      then right then repeated PASS, PASS after an unknown USER, bare PASS; model fn 2; + authenticate() raising (oracle only)
+  S3  Client.login's state machine against SCRIPTED servers: the real aioftp.Client (connect + login)
+      on simnet against a peer that sends a fixed script of reply lines whatever it is told --
+      bounded-exhaustive over words of continuing replies {331, 332, multi-line 331} followed by a
+      final one {230, multi-line 230 with a free continuation line, 530, 421, 333, nothing (EOF)},
+      plus malformed scripts; passwords with marker twins, several users / accounts; model fn 6
+      (client_login_run on the login PROGRAM regenerated from client.py by gen_logging)
   X   outside the property's domain, observed and reported, never a violation: TAB separator,
       leading blank, LF inside the password, undecodable bytes, over-long line (for the last two
       the marker oracle is still evaluated: the traceback must not carry the content)
@@ -39,20 +46,23 @@ ID = "C20"
 EXTRACT = "ExC20"
 TECHNIQUE = (
     "Coq proof of non-interference (equal log records for passwords of equal length) about an executable model of "
-    "Server.parse_command / write_line / USER+PASS handlers and Client.command / parse_line / login, parametric in "
+    "Server.parse_command / write_line / USER+PASS handlers and Client.command / parse_line / parse_response / login (login as a "
+    "program regenerated from the source: loop mask, censor_after as loop-carried variable, one branch per reply code), parametric in "
     "facts regenerated from the source by an ast taint pass over every logging call (Gen/Logging.v: argument sources, "
     "censor tuple, PASS prefix + censor index, PASS reply literals, flows of `rest`), closed whitelist obligation by "
     "vm_compute with a soundness proof; tied to the code by differential correspondence on LogRecord objects "
-    "(function level + real client/server login sessions on an in-memory network) and a marker/twin secrecy oracle"
+    "(function level + real client/server login sessions on an in-memory network, incl. a user manager that raises, + the real "
+    "Client.login against bounded-exhaustive scripted servers) and a marker/twin secrecy oracle"
 )
 LEVEL_TEXT = (
     "Theorems C20_server_log_hides_password, C20_server_stream_hides_password, C20_server_session_hides_password, "
-    "C20_client_log_hides_password, C20_client_login_records_hide_password, C20_login_session_hides_password, "
+    "C20_client_log_hides_password, C20_client_login_records_hide_password, C20_client_login_hides_password_any_server (the login "
+    "program regenerated from client.py against every script of reply lines), C20_login_program_condition_suffices, C20_login_session_hides_password, "
     "C20_outcome_independent, C20_pass_reply_fixed, C20_censored_args_are_stars, C20_pass_spellings and the checker "
     "soundness theorems C20_every_site_hides_server/client are proved for every verb spelling the server dispatches as "
     "PASS, every password string (LF-free at stream level), every line ending, every session prefix/suffix and user table "
     "(Closed under the global context); C20_check_log_sites, C20_modelled_sites_match and C20_pass_facts are closed "
-    "obligations over the logging-site inventory regenerated from /repo on every run. The model is hand-written; its "
+    "obligations over the logging-site inventory regenerated from /repo on every run, C20_login_program_ok over the regenerated login program. The model is hand-written; its "
     "tie to the code is the regenerated inventory plus a differential correspondence on captured LogRecord objects, so "
     "the assurance is a proof about the model plus regenerated structure plus sampled agreement of model and code."
 )
@@ -178,8 +188,12 @@ def has_marker(cs):
     return None
 
 
+TASK_RE = re.compile(r"\bTask-\d+\b")
+
+
 def transcript(cs, with_asyncio=False):
-    """canonical transcript for the twin comparison: addresses -> placeholders, traceback text dropped
+    """canonical transcript for the twin comparison: addresses -> placeholders, asyncio's default task names
+    (Task-<global counter>: differ from run to run whatever the password is) -> Task-N, traceback text dropped
     (it contains only source locations; it is inspected by the marker oracle)"""
     out = []
     for name, level, msg, args, message, exc_name, exc_text, func in cs:
@@ -188,6 +202,8 @@ def transcript(cs, with_asyncio=False):
         if msg in ADDR_FMTS:
             args = ("<host>", "<port>")
             message = msg % args
+        msg, message = TASK_RE.sub("Task-N", msg), TASK_RE.sub("Task-N", message)
+        args = tuple(TASK_RE.sub("Task-N", a) for a in args)
         out.append((name, level, msg, args, message, exc_name))
     return out
 
@@ -286,13 +302,48 @@ def mk_users(spec):
     return us
 
 
-def run_client_session(users_spec, user, password, debug=False):
+class FaultyUserManager(aioftp.MemoryUserManager):
+    """an application-supplied user manager whose password check fails (backend down): the error path of PASS.
+    The exception text carries no secret."""
+
+    async def authenticate(self, user, password):
+        raise RuntimeError("auth backend unavailable")
+
+
+def mk_manager(spec, fault):
+    return FaultyUserManager(mk_users(spec)) if fault else mk_users(spec)
+
+
+def session_setup(kd, q):
+    """login outcome kind -> (users, user name, authenticate raises?)"""
+    conf = q.rstrip()
+    return {
+        "accepted": ([("u", conf)], "u", False),
+        "rejected": ([("u", OTHER_PW)], "u", False),
+        "unknown-user": ([("u", conf)], "nobody", False),
+        "anonymous": ([(None, None)], "anyone", False),
+        "no-password-user": ([("u", None)], "u", False),
+        "auth-fault": ([("u", OTHER_PW)], "u", True),
+    }[kd]
+
+
+def raw_script(seq, V, q):
+    return {
+        "pass-before-user": [f"{V} {q}"],
+        "wrong-right-again": ["USER u", f"{V} {OTHER_PW}", f"{V} {q}", f"{V} {q}", f"{V} {OTHER_PW}"],
+        "unknown-user-then-pass": ["USER nobody", f"{V} {q}"],
+        "bare-pass": ["USER u", V, f"{V} ", f"{V} {q}"],
+        "auth-fault": ["USER u", f"{V} {q}", "NOOP"],
+    }[seq]
+
+
+def run_client_session(users_spec, user, password, debug=False, fault=False):
     """real Server + real Client.login on simnet; returns (outcome, canon records)"""
 
     async def main(net):
         if debug:
             asyncio.get_running_loop().set_debug(True)
-        server = aioftp.Server(mk_users(users_spec), path_io_factory=aioftp.MemoryPathIO)
+        server = aioftp.Server(mk_manager(users_spec, fault), path_io_factory=aioftp.MemoryPathIO)
         await server.start("127.0.0.1", 2121)
         client = aioftp.Client()
         await client.connect("127.0.0.1", 2121)
@@ -303,6 +354,8 @@ def run_client_session(users_spec, user, password, debug=False):
             outcome = "status:" + ",".join(str(c) for c in e.received_codes)
         except UnicodeEncodeError:
             outcome = "unencodable"
+        except Exception as e:  # e.g. the server dropped the connection: an outcome, not an abort
+            outcome = "raised:" + type(e).__name__
         client.close()
         await net.settle()
         await server.close()
@@ -314,13 +367,13 @@ def run_client_session(users_spec, user, password, debug=False):
     return outcome, [canon(r) for r in cap.records]
 
 
-def run_raw_session(users_spec, chunks, debug=False):
+def run_raw_session(users_spec, chunks, debug=False, fault=False):
     """real Server, raw peer sending `chunks` (bytes, EOL included) one at a time; returns (replies, canon records)"""
 
     async def main(net):
         if debug:
             asyncio.get_running_loop().set_debug(True)
-        server = aioftp.Server(mk_users(users_spec), path_io_factory=aioftp.MemoryPathIO)
+        server = aioftp.Server(mk_manager(users_spec, fault), path_io_factory=aioftp.MemoryPathIO)
         await server.start("127.0.0.1", 2121)
         raw = await simnet.Raw.connect(net, 2121)
         replies = [await raw.drain_replies()]
@@ -386,6 +439,145 @@ def in_domain_line(verb, sep):
     return verb.lower() == "pass" and sep.startswith(" ")
 
 
+
+# ---------------------------------------------------------------------------- S3: scripted servers
+CONT = [["331 password, please"], ["332 account, please"], ["331-two", "331 lines"]]
+FINAL = [["230 welcome"], ["230-hello", "free text 230 inside", " 230 indented", "230 done"], ["530 no"], ["421 too busy"], ["333 odd"], None]
+MALFORMED = [
+    [["230-a", "231 b"]],  # continuation with another code: StatusCodeError after both lines are logged
+    [["hello"], ["331 pw"], ["230 ok"]],  # a non-numeric first line is continued by the next reply
+    [["33"], ["230 ok"]],  # Code('33').matches('33x'); no branch for it
+    [[""], ["331 pw"], ["230 ok"]],
+    [["331"], ["230"]],  # bare codes
+    [["332 acct"], ["332 again"], ["331 \u00e9\u5bc6 %s %(pw)s"], ["331 twice"], ["230-"], ["230 x"]],
+    [["331 pw"], ["331 pw"], ["331 pw"], ["331 pw"], ["331 pw"], ["530 enough"]],
+    [["120 wait"], ["230 ok"]],
+    [["331 pw  \t "], ["230 ok\x85"]],
+]
+S3_USERS = ["u", "anonymous", "x y"]
+S3_ACCOUNTS = ["acct", "", "a b", "%s{}", "ACCT"]
+ARGS = {"ArgUser": 0, "ArgPassword": 1, "ArgAccount": 2}
+STD_PROGRAM = {
+    "first": ("", "USER ", "ArgUser", None), "expected": ["230", "33x"], "mask": "33x", "init": None, "reset": 0,
+    "branches": [("331", "PASS ", "ArgPassword", 5), ("332", "ACCT ", "ArgAccount", None)],
+}
+
+
+def login_program():
+    """Client.login as gen_logging translates it from the source under test; (program, None) or
+    (today's program, reason) when login() no longer has the translated shape"""
+    try:
+        from tools.py2v import gen_logging
+
+        m = gen_logging.Module(pathlib.Path(aioftp.__file__).parent / "client.py")
+        return gen_logging.client_login_program(m), None
+    except Exception as e:
+        return STD_PROGRAM, f"{type(e).__name__}: {e}"
+
+
+def enc_program(lp):
+    oz = lambda v: [] if v is None else [v]
+    br = lambda b: [b[0], b[1], ARGS[b[2]], oz(b[3])]
+    return [br(lp["first"]), list(lp["expected"]), lp["mask"], oz(lp["init"]), oz(lp["reset"]), [br(b) for b in lp["branches"]]]
+
+
+def login_scripts(depth):
+    """every word of at most `depth` continuing replies followed by one final reply (None: the peer hangs up)"""
+    words = [[]]
+    out = []
+    for _ in range(depth + 1):
+        for w in words:
+            for f in FINAL:
+                out.append(w + ([f] if f is not None else []))
+        words = [w + [c] for w in words for c in CONT]
+    return out
+
+
+def run_scripted_login(groups, user, password, account, debug=False):
+    """the REAL aioftp.Client (connect, login) against a scripted peer on simnet.  The peer greets, then sends
+    the next group of reply lines whenever the client has gone quiet (so the client sees the flat line
+    stream whatever it sent), and hangs up when the script is exhausted while the client still waits.
+    Returns (outcome, commands received by the peer, canon records logged during login())."""
+    state = {}
+
+    async def main(net):
+        if debug:
+            asyncio.get_running_loop().set_debug(True)
+        peer = {}
+        got = asyncio.Event()
+
+        async def handler(reader, writer):
+            peer["r"], peer["w"] = reader, writer
+            writer.write(b"220 scripted peer\r\n")
+            got.set()
+
+        srv = await asyncio.start_server(handler, "127.0.0.1", 2121)
+        client = aioftp.Client()
+        await client.connect("127.0.0.1", 2121)
+        await got.wait()
+        await net.settle()
+        state["n0"] = len(cap.records)
+
+        async def login():
+            try:
+                await client.login(user, password, account)
+                return "logged-in"
+            except aioftp.StatusCodeError as e:
+                return "status:" + ",".join(str(c) for c in e.received_codes)
+            except ConnectionResetError:
+                return "reset"
+            except UnicodeEncodeError:
+                return "unencodable"
+            except Exception as e:  # whatever a modified client raises is an outcome, not an abort
+                return "raised:" + type(e).__name__
+
+        task = asyncio.ensure_future(login())
+        await net.settle()
+        for g in groups:
+            if task.done():
+                break
+            peer["w"].write("".join(l + "\r\n" for l in g).encode("utf-8"))
+            await net.settle()
+        if not task.done():
+            peer["w"].close()
+            await net.settle()
+        if not task.done():
+            task.cancel()
+            outcome = "hung"
+        else:
+            outcome = task.result()
+        state["n1"] = len(cap.records)
+        sent = bytes(peer["r"]._buffer).decode("utf-8", "replace").split("\r\n")
+        client.close()
+        peer["w"].close()
+        srv.close()
+        await net.settle()
+        return outcome, [l for l in sent if l]
+
+    with Capture() as cap:
+        outcome, sent = simnet.run(main, wall_timeout=60)
+    return outcome, sent, [canon(r) for r in cap.records[state["n0"] :]]
+
+
+def scripted_pair(rng, groups, user, p, account, debug=False):
+    """run one script with p and with its marker twin; returns (runs, oracle failures)"""
+    runs = []
+    for q in (p, twin(rng, p)):
+        try:
+            outcome, sent, cs = run_scripted_login(groups, user, q, account, debug=debug)
+        except Exception as e:  # harness-level failure: an observation, the search goes on
+            outcome, sent, cs = "harness:" + type(e).__name__ + ":" + str(e)[:80], [], []
+        runs.append((q, outcome, sent, cs))
+    fails = []
+    (p1, o1, s1, c1), (p2, o2, s2, c2) = runs
+    hit = has_marker(c2) if p2 != p1 else None
+    if hit:
+        fails.append(("leak", hit))
+    if o1 != o2 or transcript(c1) != transcript(c2):
+        fails.append(("twin", first_diff(transcript(c1), transcript(c2))))
+    return runs, fails
+
+
 # ---------------------------------------------------------------------------- the check
 def correspondence(ctx, budget=None):
     rng = ctx.rng
@@ -397,8 +589,12 @@ def correspondence(ctx, budget=None):
         "F1: parse_command on lines verb x separator x argument x ending (verbs: 6 PASS spellings, other verbs, non-ASCII "
         "look-alikes; arguments from a generator biased to blanks, '%'/'{}' directives, '*', non-ASCII, 1 char, up to 20000 chars), "
         "each with its marker twin; F2: client.command over commands x censor_after in {None,0,1,4,5,6,-1,-2,50}; "
-        "S1: real Client.login vs real Server on simnet for 5 login outcomes x passwords, each run twice (p and twin), a share "
-        "with asyncio debug mode; S2: raw scripts for 6 verb spellings x 4 login sequences x passwords, twice each. "
+        "S1: real Client.login vs real Server on simnet for 6 login outcomes (incl. authenticate() raising) x passwords, each run twice (p and twin), a share "
+        "with asyncio debug mode; S2: raw scripts for 6 verb spellings x 5 login sequences (incl. authenticate() raising) x passwords, twice each; "
+        "S3: real Client.connect+login against a scripted peer, bounded-exhaustive over every word of <= 3 (thorough 5) continuing "
+        "replies {331, 332, two-line 331} followed by {230, four-line 230, 530, 421, 333, EOF}, plus malformed scripts (code change "
+        "inside a multi-line reply, non-numeric / short / empty lines, 120), thorough: + random words; users x accounts rotate, "
+        "each script run with a password and its marker twin. "
         "A case is non-trivial when its (stream, verb/outcome, password) key is new."
     )
     xcheck = []
@@ -506,7 +702,7 @@ def correspondence(ctx, budget=None):
     ctx.count("F2_client_commands", len(cjobs))
 
     # ------------------------------------------------------------ S1: real client logins
-    kinds = ["accepted", "rejected", "unknown-user", "anonymous", "no-password-user"]
+    kinds = ["accepted", "rejected", "unknown-user", "anonymous", "no-password-user", "auth-fault"]
     s1 = []
     pws = [p for p in PW_FIXED if "\n" not in p]
     n_s1 = 120 * scale
@@ -519,6 +715,7 @@ def correspondence(ctx, budget=None):
             s1.append((kd, p))
     s1_runs = []
     outcomes = {}
+    n_fault_logged = 0
     for idx, (kd, p) in enumerate(s1):
         pair = []
         for q in (p, twin(rng, p)):
@@ -526,24 +723,17 @@ def correspondence(ctx, budget=None):
                 q.encode("utf-8")
             except UnicodeEncodeError:
                 continue
-            conf = q.rstrip()
-            if kd == "accepted":
-                spec, user = [("u", conf)], "u"
-            elif kd == "rejected":
-                spec, user = [("u", OTHER_PW)], "u"
-            elif kd == "unknown-user":
-                spec, user = [("u", conf)], "nobody"
-            elif kd == "anonymous":
-                spec, user = [(None, None)], "anyone"
-            else:
-                spec, user = [("u", None)], "u"
+            spec, user, fault = session_setup(kd, q)
             debug = idx % 7 == 0
             ctx.case(("S1", kd, q))
             ctx.traces_impl += 1
-            outcome, cs = run_client_session(spec, user, q, debug=debug)
+            outcome, cs = run_client_session(spec, user, q, debug=debug, fault=fault)
             outcomes[(kd, outcome)] = outcomes.get((kd, outcome), 0) + 1
             pair.append((q, spec, user, outcome, cs))
-            s1_runs.append((kd, q, spec, user, outcome, cs))
+            if not fault:  # the session model has no failing user manager: oracle only for that kind
+                s1_runs.append((kd, q, spec, user, outcome, cs))
+            else:
+                n_fault_logged += any(c[2] == "dispatcher caught exception" and c[5] == "RuntimeError" for c in cs)
         if len(pair) == 2:
             (p1, _, _, o1, c1), (p2, _, _, o2, c2) = pair
             hit = has_marker(c2) if p2 != p1 else None
@@ -560,10 +750,14 @@ def correspondence(ctx, budget=None):
                      "diff": first_diff(transcript(c1), transcript(c2))},
                 )
     ctx.extra["S1_outcomes"] = {f"{k[0]}:{k[1]}": v for k, v in sorted(outcomes.items())}
-    expected_out = {"accepted": "logged-in", "rejected": "status:530", "unknown-user": "status:530", "anonymous": "logged-in", "no-password-user": "logged-in"}
+    expected_out = {"accepted": "logged-in", "rejected": "status:530", "unknown-user": "status:530", "anonymous": "logged-in", "no-password-user": "logged-in",
+                    "auth-fault": "raised:ConnectionResetError"}
     for (kd, oc), n in outcomes.items():
         if expected_out[kd] != oc:
             ctx.disagree("S1-outcome", kd, expected_out[kd], oc)
+    ctx.count("S1_auth_fault_sessions_with_the_fault_logged", n_fault_logged)
+    if n_fault_logged == 0:
+        ctx.disagree("S1-non-vacuity", "no auth-fault session logged the RuntimeError", ">0", 0)
     mo = ctx.model(
         [
             (4, [censor, enc_users(spec), "PASS ", 5, conn_addr(split_loggers(cs)[0])[0], conn_addr(split_loggers(cs)[0])[1], user, q, ""])
@@ -586,8 +780,8 @@ def correspondence(ctx, budget=None):
 
     # ------------------------------------------------------------ S2: raw scripts, verb spellings
     s2_runs = []
-    seqs = ["pass-before-user", "wrong-right-again", "unknown-user-then-pass", "bare-pass"]
-    n_s2 = 96 * scale
+    seqs = ["pass-before-user", "wrong-right-again", "unknown-user-then-pass", "bare-pass", "auth-fault"]
+    n_s2 = 120 * scale
     for i in range(n_s2):
         V = SPELLINGS[i % len(SPELLINGS)]
         seq = seqs[(i // len(SPELLINGS)) % len(seqs)]
@@ -597,20 +791,14 @@ def correspondence(ctx, budget=None):
         for q in (p, twin(rng, p)):
             conf = q.rstrip()
             spec = [("u", conf)]
-            if seq == "pass-before-user":
-                script = [f"{V} {q}"]
-            elif seq == "wrong-right-again":
-                script = ["USER u", f"{V} {OTHER_PW}", f"{V} {q}", f"{V} {q}", f"{V} {OTHER_PW}"]
-            elif seq == "unknown-user-then-pass":
-                script = ["USER nobody", f"{V} {q}"]
-            else:
-                script = ["USER u", V, f"{V} ", f"{V} {q}"]
+            script = raw_script(seq, V, q)
             chunks = [(l + end).encode("utf-8", "surrogatepass") for l in script]
             ctx.case(("S2", V, seq, q, end))
             ctx.traces_impl += 1
-            replies, cs = run_raw_session(spec, chunks, debug=(i % 9 == 0))
+            replies, cs = run_raw_session(spec, chunks, debug=(i % 9 == 0), fault=(seq == "auth-fault"))
             pair.append((q, replies, cs))
-            s2_runs.append((V, seq, q, spec, [l + end for l in script], replies, cs))
+            if seq != "auth-fault":  # oracle only (no failing user manager in the session model)
+                s2_runs.append((V, seq, q, spec, [l + end for l in script], replies, cs))
         (p1, r1, c1), (p2, r2, c2) = pair
         hit = has_marker(c2) if p2 != p1 else None
         if hit:
@@ -639,6 +827,68 @@ def correspondence(ctx, budget=None):
         if len(xcheck) < 95 and len(q) < 10:
             xcheck.append((2, [censor, enc_users(spec), conn_addr(srv)[0], conn_addr(srv)[1], script], o))
     ctx.count("S2_raw_sessions", len(s2_runs))
+
+    # ------------------------------------------------------------ S3: Client.login against scripted servers
+    prog, prog_why = login_program()
+    ctx.extra["login_program"] = {"translated": prog_why is None, "why_not": prog_why, "program": enc_program(prog)}
+    depth = 3 + (2 if thorough else 0) + (1 if budget else 0)
+    scripts = login_scripts(depth) + MALFORMED
+    if thorough or budget:
+        for _ in range(300 * scale):  # random words over all reply shapes, malformed lines included
+            pool = CONT + [f for f in FINAL if f] + [g for m in MALFORMED for g in m]
+            scripts.append([rng.choice(pool) for _ in range(rng.randint(1, 7))])
+    s3_pws = [p for p in PW_FIXED if p.strip()]
+    s3_runs = []
+    s3_out = {}
+    n_pass = 0
+    for i, groups in enumerate(scripts):
+        p = s3_pws[i % len(s3_pws)] if i % 4 else gen_password(rng, long_ok=(i % 16 == 0))
+        if not p.strip():
+            p = "x" + p
+        try:
+            p.encode("utf-8")
+        except UnicodeEncodeError:
+            p = "pw"
+        user = S3_USERS[i % len(S3_USERS)]
+        account = S3_ACCOUNTS[(i // 3) % len(S3_ACCOUNTS)]
+        ctx.case(("S3", tuple(tuple(g) for g in groups), p, user, account))
+        ctx.traces_impl += 2
+        runs, fails = scripted_pair(rng, groups, user, p, account, debug=(i % 11 == 0))
+        for q, outcome, sent, cs in runs:
+            s3_out[outcome.split(":")[0]] = s3_out.get(outcome.split(":")[0], 0) + 1
+            if any(l == "PASS " + q for l in sent):
+                n_pass += 1
+            s3_runs.append((groups, user, q, account, outcome, cs))
+        for kind, info in fails:
+            rp = {"key": "c20-login-script-" + kind, "driver": "scripted-server", "script": groups, "user": user, "password": runs[0][0],
+                  "twin": runs[1][0], "account": account, "outcomes": [runs[0][1], runs[1][1]], "commands_received": runs[1][2]}
+            if kind == "leak":
+                rp.update({"logger": info[0][0], "record": list(info[0][:5]), "found": info[1]})
+                ctx.violation("a log record of Client.login against a scripted server contains a character of the password", rp)
+            else:
+                rp["diff"] = info
+                ctx.violation("log transcripts of Client.login against the same scripted server differ for two passwords of equal length", rp)
+    mo = ctx.model(
+        [(6, [enc_program(prog), user, q, account, [l + "\r\n" for g in groups for l in g]]) for groups, user, q, account, outcome, cs in s3_runs]
+    )
+    for (groups, user, q, account, outcome, cs), o in zip(s3_runs, mo):
+        cli = client_body(split_loggers(cs)[1])
+        mc = [mrec(x) for x in o]
+        if mc != [irec(c) for c in cli]:
+            ctx.disagree("S3-client-records", [groups, user, q, account, outcome], mc, [irec(c) for c in cli])
+        if len(q) < 8 and 2 <= len(groups) < 5 and sum(1 for x in xcheck if x[0] == 6) < 8:
+            if True:
+                xcheck.append((6, [enc_program(prog), user, q, account, [l + "\r\n" for g in groups for l in g]], o))
+    ctx.count("S3_scripted_logins", len(s3_runs))
+    ctx.count("S3_scripts", len(scripts))
+    ctx.count("S3_logins_that_sent_PASS", n_pass)
+    ctx.extra["S3_outcomes"] = dict(sorted(s3_out.items()))
+    if n_pass == 0:
+        ctx.disagree("S3-non-vacuity", "no scripted login sent a PASS command", ">0", 0)
+    if s3_runs:
+        groups, user, q, account, outcome, cs = s3_runs[min(len(s3_runs) - 1, 2 * 31)]
+        ctx.sample({"stream": "S3", "script": groups, "user": user, "password": q, "account": account, "outcome": outcome,
+                    "records": [list(c[:5]) for c in cs if c[0] != "asyncio"][:12]})
 
     # ------------------------------------------------------------ X: outside the domain (observations)
     obs = {}
@@ -731,15 +981,8 @@ def replay(ctx, data):
         kd = r["kind"]
         res = []
         for q in (p, twin(rng, p)):
-            conf = q.rstrip()
-            spec, user = {
-                "accepted": ([("u", conf)], "u"),
-                "rejected": ([("u", OTHER_PW)], "u"),
-                "unknown-user": ([("u", conf)], "nobody"),
-                "anonymous": ([(None, None)], "anyone"),
-                "no-password-user": ([("u", None)], "u"),
-            }[kd]
-            outcome, cs = run_client_session(spec, user, q)
+            spec, user, fault = session_setup(kd, q)
+            outcome, cs = run_client_session(spec, user, q, fault=fault)
             for c in cs:
                 print(c[:5])
             res.append(cs)
@@ -750,17 +993,22 @@ def replay(ctx, data):
         res = []
         for q in (p, twin(rng, p)):
             conf = q.rstrip()
-            script = {
-                "pass-before-user": [f"{V} {q}"],
-                "wrong-right-again": ["USER u", f"{V} {OTHER_PW}", f"{V} {q}", f"{V} {q}", f"{V} {OTHER_PW}"],
-                "unknown-user-then-pass": ["USER nobody", f"{V} {q}"],
-                "bare-pass": ["USER u", V, f"{V} ", f"{V} {q}"],
-            }[seq]
-            _, cs = run_raw_session([("u", conf)], [(l + end).encode("utf-8", "surrogatepass") for l in script])
+            script = raw_script(seq, V, q)
+            _, cs = run_raw_session([("u", conf)], [(l + end).encode("utf-8", "surrogatepass") for l in script], fault=(seq == "auth-fault"))
             for c in cs:
                 print(c[:5])
             res.append(cs)
         return has_marker(res[1]) is None and transcript(res[0]) == transcript(res[1])
+    if key in ("c20-login-script-leak", "c20-login-script-twin"):
+        p = r.get("twin") or r["password"]
+        runs, fails = scripted_pair(rng, r["script"], r["user"], p, r["account"])
+        for q, outcome, sent, cs in runs:
+            print("password", repr(q), "outcome", outcome, "peer received", sent)
+            for c in cs:
+                print("  ", c[:5])
+        for f in fails:
+            print("ORACLE:", f[0], f[1] if f[0] == "twin" else (list(f[1][0][:5]), f[1][1]))
+        return not fails
     if key == "c20-traceback-leak":
         mk = "".join(MARK[:6])
         chunk = b"PASS \xff" + mk.encode() + b"\r\n" if r.get("case") == "undecodable-bytes" else b"PASS " + (mk * 12000).encode() + b"\r\n"
